@@ -223,9 +223,27 @@ func (c *Ctx) c19Server(rel, name string) {
 		site ssa.Instruction
 	}
 	var arms []doneArm
+	// the shutdown channel: ctx.Done(), or a parameter that is handed ctx.Done() where the
+	// function is called or started (go s.serve(ctx.Done()))
+	var isDoneChan func(v ssa.Value, depth int) bool
+	isDoneChan = func(v ssa.Value, depth int) bool {
+		if depth > 3 {
+			return false
+		}
+		v = eng.StripConv(v)
+		if call, ok := v.(*ssa.Call); ok && call.Call.IsInvoke() && call.Call.Method.Name() == "Done" {
+			return true
+		}
+		if prm, ok := v.(*ssa.Parameter); ok {
+			if w := p.Actual(prm); w != ssa.Value(prm) {
+				return isDoneChan(w, depth+1)
+			}
+		}
+		return false
+	}
 	isDoneSel := func(sel *ssa.Select) int {
 		for i, st := range sel.States {
-			if call, ok := st.Chan.(*ssa.Call); ok && call.Call.IsInvoke() && call.Call.Method.Name() == "Done" {
+			if isDoneChan(st.Chan, 0) {
 				return i
 			}
 		}
@@ -799,7 +817,9 @@ func (c *Ctx) retentionCancel(rule string) {
 				}
 				arm := eng.SelectArm(x, has)
 				// the arm must not come back to this select
-				if arm == nil || eng.BlockReaches(arm, func(y ssa.Instruction) bool { return y == in }, nil) != nil {
+				// (a loop steered by a flag the arm sets — stopping = true … for !stopping — is left
+				// as surely as by a return: the search follows the values of boolean phis)
+				if arm == nil || len(arm.Instrs) == 0 || eng.ReachPhiAwareFromBlock(arm, func(y ssa.Instruction) bool { return y == in }, nil) != nil {
 					r.Bad(rule, cons, p.InstrPos(in), "the ctx.Done() arm does not leave the loop")
 					return
 				}
